@@ -30,8 +30,25 @@ def is_usort(s):
     return isinstance(s, (list, tuple)) and s[0] == "S"
 
 
+STRING = "String"
+
+
+def is_array(s):
+    return isinstance(s, (list, tuple)) and s[0] == "Array"
+
+
+def is_fun(s):
+    return isinstance(s, (list, tuple)) and s[0] == "Fun"
+
+
+def ARRAY(i, e):
+    return ["Array", i, e]
+
+
 def sort_key(s):
-    return s if isinstance(s, str) else tuple(s)
+    if isinstance(s, str):
+        return s
+    return tuple(sort_key(x) if isinstance(x, (list, tuple)) else x for x in s)
 
 
 def same_sort(a, b):
@@ -48,10 +65,20 @@ INT_REL = ("<=", "<", ">=", ">")
 INT_BIN = ("+", "-", "*")
 
 
+LEAVES = ("sym", "bool", "int", "real", "bv", "str")
+QUANT = ("forall", "exists")
+
+
 def args_of(t):
     op = t[0]
-    if op in ("sym", "bool", "int", "real", "bv"):
+    if op in LEAVES:
         return []
+    if op == "app":
+        return t[4:]
+    if op in QUANT:
+        return [t[2]]
+    if op == "arrayval":
+        return [t[2]] + [x for kv in t[3] for x in kv]
     if op in PARAM_OPS:
         return t[1 + PARAM_OPS[op]:]
     return t[1:]
@@ -89,6 +116,26 @@ def sort_of(t):
         return sort_of(t[1])
     if op == "toreal":
         return REAL
+    if op == "/":
+        return REAL
+    if op == "str":
+        return STRING
+    if op in ("str.++", "str.replace", "str.substr", "str.at", "int.to.str"):
+        return STRING
+    if op in ("str.len", "str.indexof", "str.to.int", "bv2nat"):
+        return INT
+    if op in ("str.contains", "str.prefixof", "str.suffixof"):
+        return BOOL
+    if op == "select":
+        return sort_of(t[1])[2]
+    if op == "store":
+        return sort_of(t[1])
+    if op == "arrayval":
+        return ["Array", t[1], sort_of(t[2])]
+    if op == "app":
+        return t[3]
+    if op in QUANT:
+        return BOOL
     raise ValueError("sort_of: unknown op %r" % (op,))
 
 
@@ -103,6 +150,12 @@ def symbols_of(t, acc=None):
             if x[1] not in acc:
                 acc[x[1]] = x[2]
         else:
+            if x[0] == "app" and x[1] not in acc:
+                acc[x[1]] = ["Fun", x[2], x[3]]
+            if x[0] in QUANT:
+                for n, srt in x[1]:
+                    if n not in acc:
+                        acc[n] = srt
             stack.extend(reversed(args_of(x)))
     return acc
 
@@ -465,7 +518,7 @@ def shrink_candidates(t):
     for a in args_of(t):
         if same_sort(sort_of(a), s):
             out.append(a)
-    if t[0] not in ("sym", "bool", "int", "real", "bv"):
+    if t[0] not in LEAVES:
         if s == BOOL:
             out += [["bool", True], ["bool", False]]
         elif s == INT:
@@ -474,7 +527,7 @@ def shrink_candidates(t):
             out += [["bv", 0, s[1]]]
     # recurse one level: replace one argument by a simpler one
     op = t[0]
-    if op not in ("sym", "bool", "int", "real", "bv"):
+    if op not in LEAVES and op not in ("app", "arrayval") and op not in QUANT:
         base = 1 + PARAM_OPS.get(op, 0)
         for i in range(base, len(t)):
             for c in shrink_candidates(t[i]):
@@ -499,6 +552,15 @@ def pretty(t):
     if op in PARAM_OPS:
         n = PARAM_OPS[op]
         return "((_ %s %s) %s)" % (op, " ".join(str(x) for x in t[1:1 + n]), pretty(t[1 + n]))
+    if op == "str":
+        return '"%s"' % t[1]
+    if op == "app":
+        return "(%s %s)" % (t[1], " ".join(pretty(a) for a in t[4:]))
+    if op in QUANT:
+        return "(%s (%s) %s)" % (op, " ".join("(%s %s)" % (n, smt_sort(s_)) for n, s_ in t[1]), pretty(t[2]))
+    if op == "arrayval":
+        return "(array %s default %s %s)" % (smt_sort(t[1]), pretty(t[2]),
+                                             " ".join("[%s]=%s" % (pretty(k), pretty(v)) for k, v in t[3]))
     return "(%s %s)" % (op, " ".join(pretty(a) for a in t[1:]))
 
 
@@ -516,6 +578,12 @@ def to_pysmt_type(sort, env):
         return T.BVType(sort[1])
     if is_usort(sort):
         return env.type_manager.Type(sort[1], 0)
+    if sort == STRING:
+        return T.STRING
+    if is_array(sort):
+        return T.ArrayType(to_pysmt_type(sort[1], env), to_pysmt_type(sort[2], env))
+    if is_fun(sort):
+        return T.FunctionType(to_pysmt_type(sort[2], env), [to_pysmt_type(a, env) for a in sort[1]])
     raise ValueError(sort)
 
 
@@ -533,6 +601,18 @@ def build(t, env, cache=None):
         return mgr.Real(Fraction(t[1], t[2]))
     if op == "bv":
         return mgr.BV(int(t[1]), int(t[2]))
+    if op == "str":
+        return mgr.String(t[1])
+    if op == "app":
+        f = mgr.Symbol(t[1], to_pysmt_type(["Fun", t[2], t[3]], env))
+        return mgr.Function(f, [build(x, env) for x in t[4:]])
+    if op in QUANT:
+        vs = [mgr.Symbol(n, to_pysmt_type(s_, env)) for n, s_ in t[1]]
+        body = build(t[2], env)
+        return mgr.ForAll(vs, body) if op == "forall" else mgr.Exists(vs, body)
+    if op == "arrayval":
+        return mgr.Array(to_pysmt_type(t[1], env), build(t[2], env),
+                         dict((build(k, env), build(v, env)) for k, v in t[3]))
     if op in PARAM_OPS:
         x = build(t[1 + PARAM_OPS[op]], env)
         if op == "extract":
@@ -586,6 +666,25 @@ def build(t, env, cache=None):
         return mgr.Times(a)
     if op == "toreal":
         return mgr.ToReal(a[0])
+    if op == "/":
+        return mgr.Div(a[0], a[1])
+    if op == "select":
+        return mgr.Select(a[0], a[1])
+    if op == "store":
+        return mgr.Store(a[0], a[1], a[2])
+    if op == "bv2nat":
+        return mgr.BVToNatural(a[0])
+    strops = {"str.++": lambda: mgr.StrConcat(a), "str.len": lambda: mgr.StrLength(a[0]),
+              "str.contains": lambda: mgr.StrContains(a[0], a[1]),
+              "str.prefixof": lambda: mgr.StrPrefixOf(a[0], a[1]),
+              "str.suffixof": lambda: mgr.StrSuffixOf(a[0], a[1]),
+              "str.at": lambda: mgr.StrCharAt(a[0], a[1]),
+              "str.to.int": lambda: mgr.StrToInt(a[0]), "int.to.str": lambda: mgr.IntToStr(a[0]),
+              "str.indexof": lambda: mgr.StrIndexOf(a[0], a[1], a[2]),
+              "str.replace": lambda: mgr.StrReplace(a[0], a[1], a[2]),
+              "str.substr": lambda: mgr.StrSubstr(a[0], a[1], a[2])}
+    if op in strops:
+        return strops[op]()
     raise ValueError("build: unknown op %r" % (op,))
 
 
@@ -624,6 +723,10 @@ def smt_sort(s):
         return s
     if s[0] == "BV":
         return "(_ BitVec %d)" % s[1]
+    if s[0] == "Array":
+        return "(Array %s %s)" % (smt_sort(s[1]), smt_sort(s[2]))
+    if s[0] == "Fun":
+        return "(%s) %s" % (" ".join(smt_sort(a) for a in s[1]), smt_sort(s[2]))
     return smt_symbol(s[1])
 
 
@@ -646,4 +749,16 @@ def to_smtlib(t):
         n = PARAM_OPS[op]
         return "((_ %s %s) %s)" % (_SMT_PARAM[op], " ".join(str(x) for x in t[1:1 + n]),
                                    to_smtlib(t[1 + n]))
+    if op == "str":
+        return '"%s"' % t[1].replace('"', '""')
+    if op == "app":
+        return "(%s %s)" % (smt_symbol(t[1]), " ".join(to_smtlib(a) for a in t[4:]))
+    if op in QUANT:
+        return "(%s (%s) %s)" % (op, " ".join("(%s %s)" % (smt_symbol(n), smt_sort(s_)) for n, s_ in t[1]),
+                                 to_smtlib(t[2]))
+    if op == "arrayval":
+        r = "((as const %s) %s)" % (smt_sort(["Array", t[1], sort_of(t[2])]), to_smtlib(t[2]))
+        for k, v in t[3]:
+            r = "(store %s %s %s)" % (r, to_smtlib(k), to_smtlib(v))
+        return r
     return "(%s %s)" % (_SMT_NAMES.get(op, op), " ".join(to_smtlib(a) for a in t[1:]))
